@@ -386,6 +386,19 @@ async fn run(transport_split: bool) {
                 if choice(5) == 1 {
                     f.echo = Some(true);
                 }
+                // the flow that moves the window may be a link flow (of one of the receiving peer's
+                // links, restating its ample credit) and may ask for an echo: the answer is built,
+                // and the transfers that the new window releases are sent, by the same call
+                if choice(3) == 0 && !st.links.is_empty() {
+                    let l = &st.links[choice(st.links.len() as u32) as usize];
+                    f.handle = Some(l.peer_handle);
+                    f.delivery_count = Some(l.completed as u32);
+                    f.link_credit = Some(100_000);
+                    if choice(2) == 0 {
+                        f.echo = Some(true);
+                    }
+                    sim::probe("window-moved-by-a-link-flow");
+                }
                 if w == 0 {
                     sim::probe("window-zero");
                 }
